@@ -359,6 +359,26 @@ func credsFor(ac socksrun.AuthCfg, r *vh.Rand) []socksrun.Cred {
 		add(u.Name, "")
 		add(u.Name, "wrong")
 	}
+	// another user's password, and user name used as password
+	for _, u := range ac.Users {
+		for _, v := range ac.Users {
+			if u.Name == "" || u.Name == v.Name {
+				continue
+			}
+			if v.Pass != "" {
+				add(u.Name, v.Pass)
+			}
+			if v.Hash != "" {
+				add(u.Name, hashedPasswords[v.Hash])
+				add("nobody", hashedPasswords[v.Hash])
+			}
+		}
+		if u.Name != "" {
+			add(u.Name, u.Name)
+		}
+	}
+	add("nobody", "nobody")
+	add("ghost", "ghost")
 	add("ghost", "")
 	add("ghost", "x")
 	add("nobody", "pw")
